@@ -84,6 +84,17 @@ pub fn max_by_generation(v: Vec<JournalState>) -> (r: Option<JournalState>)
 }
 
 #[verifier::external_body]
+pub fn min_by_generation(v: Vec<JournalState>) -> (r: Option<JournalState>)
+    ensures
+        v@.len() == 0 ==> r is None,
+        v@.len() > 0 ==> r is Some && exists|k: int| 0 <= k < v@.len() && r->Some_0 == v@[k]
+            && (forall|i: int| 0 <= i < v@.len() ==> v@[k].generation <= v@[i].generation)
+            && (forall|i: int| 0 <= i < k ==> v@[k].generation < v@[i].generation),
+{
+    v.into_iter().min_by_key(|s| s.generation)
+}
+
+#[verifier::external_body]
 pub fn vec_last(v: Vec<usize>) -> (r: Option<usize>)
     ensures
         v@.len() == 0 ==> r is None,
